@@ -140,10 +140,7 @@ fn exec_with(ctx: &Ctx, step: &Step, e: Exe) -> Result<StepResult, String> {
         Exe::Local => Ok(run_step(ctx, &Step { op: step.op.clone(), fl: Fl::Async })),
         Exe::Remote => {
             if let Op::LinkTo(l) = &step.op {
-                let p = ctx.target_path(l.target);
-                if std::fs::read(&p).map(|b| b != ctx.blob(l.blob)[..]).unwrap_or(true) {
-                    std::fs::write(&p, &ctx.blob(l.blob)[..]).map_err(|e| format!("INFRA: {e}"))?;
-                }
+                crate::exec::prep_link_target(ctx, l);
             }
             remote_step(ctx, &Step { op: step.op.clone(), fl: Fl::Async })
         }
@@ -226,6 +223,7 @@ fn cfg(tier: Tier) -> ProgCfg {
             idx_delete: 1,
             link_to: 2,
             abandon: 1,
+            commit_dropped: 0,
             damage_content: 4,
             damage_bucket: 3,
             foreign: 1,
